@@ -22,6 +22,7 @@ import (
 	"encoding/json"
 	"fmt"
 	"os"
+	"strings"
 	"time"
 
 	"github.com/d5/tengo/v2"
@@ -124,19 +125,25 @@ func main() {
 	res.Exhaustive = true
 	mods := progModules()
 	nProg := f.Scale(400, 20000)
-	for i := 0; i < nProg; i++ {
+	for i, ran := 0, 0; i < 40*nProg && ran < nProg; i++ {
 		r := rng.Fork()
 		p := lib.DefaultProfile()
 		p.Immutables = true
-		p.MaxStmts = 8 + r.Intn(10)
+		p.MaxStmts = 10 + r.Intn(14)
 		g := lib.NewGen(r, p)
-		runProgram("programs", g.Program(), nil)
+		src := g.Program()
+		if !strings.Contains(src, "immutable(") {
+			continue // only programs that use immutable values
+		}
+		ran++
+		runProgram("programs", src, nil, nil)
 	}
 	nImm := f.Scale(1500, 60000)
 	for i := 0; i < nImm; i++ {
 		r := rng.Fork()
 		g := &pgen{r: r}
-		runProgram("immprog", g.program(), mods)
+		src := g.program()
+		runProgram("immprog", src, mods, g.immNames())
 	}
 	res.Extra = map[string]interface{}{"exhaustive_max_len": exLen, "exhaustive_sequences": nEx, "universe": "0, 1, \"a\", undefined, \"value\", [1,2,3] (cap 4), immutable([1,2,3]), immutable([[1,2],{a:1}]), {a:1,b:[5]}, immutable({a:[1],b:2}), freeze([{a:[1,2]},[3]]), error([3])"}
 	res.Write(f.Out)
@@ -174,7 +181,7 @@ func replay(path string) {
 			runSeq(in.Ops, "objops")
 		}
 		if in.Source != "" {
-			runProgram(stream, in.Source, progModules())
+			runProgram(stream, in.Source, progModules(), nil)
 		}
 	}
 	for _, v := range rp.Violations {
